@@ -1174,6 +1174,9 @@ func (ctx drawContext) drawRectBorder(box, widths pr.Rectangle, style pr.String,
 }
 
 // Only works for vertical or horizontal lines : x1 == x2 or y1 == y2
+// maximum number of waves drawn for a wavy text decoration
+const maxWaves = 100000
+
 func (ctx drawContext) drawLine(x1, y1, x2, y2, thickness pr.Fl, style pr.String, colors [2]Color, offset fl) {
 	ctx.dst.OnNewStack(func() {
 		if !(style == "ridge" || style == "groove") {
@@ -1229,7 +1232,9 @@ func (ctx drawContext) drawLine(x1, y1, x2, y2, thickness pr.Fl, style pr.String
 			x := x1 - offset
 			ctx.dst.MoveTo(x, y1)
 
-			for x < x2 {
+			// with a zero thickness (a font without underline metrics) the
+			// position would never advance
+			for i := 0; x < x2 && radius > 0 && i < maxWaves; i++ {
 				ctx.dst.CubicTo(x+radius/2, y1+up*radius,
 					x+3*radius/2, y1+up*radius,
 					x+2*radius, y1)
